@@ -8,3 +8,59 @@ package vaxis
 
 // VerifAsIndex re-exports Color.asIndex
 func VerifAsIndex(c Color) Color { return c.asIndex() }
+
+// VerifCell is a copy of one screen cell including the unexported sixel flag.
+type VerifCell struct {
+	Cell
+	Sixel bool
+}
+
+func verifSnap(s *screen) [][]VerifCell {
+	out := make([][]VerifCell, len(s.buf))
+	for r := range s.buf {
+		out[r] = make([]VerifCell, len(s.buf[r]))
+		for c := range s.buf[r] {
+			out[r][c] = VerifCell{Cell: s.buf[r][c], Sixel: s.buf[r][c].sixel}
+		}
+	}
+	return out
+}
+
+// VerifScreenNext returns a copy of the screen the application draws into.
+func (vx *Vaxis) VerifScreenNext() [][]VerifCell { return verifSnap(vx.screenNext) }
+
+// VerifScreenLast returns a copy of what Vaxis believes the terminal shows.
+func (vx *Vaxis) VerifScreenLast() [][]VerifCell { return verifSnap(vx.screenLast) }
+
+// VerifCursor is a copy of a cursor state.
+type VerifCursor struct {
+	Row, Col int
+	Style    CursorStyle
+	Visible  bool
+}
+
+func (vx *Vaxis) VerifCursorNext() VerifCursor {
+	c := vx.cursorNext
+	return VerifCursor{c.row, c.col, c.style, c.visible}
+}
+
+func (vx *Vaxis) VerifCursorLast() VerifCursor {
+	c := vx.cursorLast
+	return VerifCursor{c.row, c.col, c.style, c.visible}
+}
+
+// VerifCaps returns the capability flags in the order of hx.CapNames-like
+// names: a map is used so the harness does not depend on field order.
+func (vx *Vaxis) VerifCaps() map[string]bool {
+	vx.mu.Lock()
+	defer vx.mu.Unlock()
+	c := vx.caps
+	return map[string]bool{
+		"synchronizedUpdate": c.synchronizedUpdate, "unicodeCore": c.unicodeCore, "noZWJ": c.noZWJ,
+		"rgb": c.rgb, "kittyGraphics": c.kittyGraphics, "kittyKeyboard": c.kittyKeyboard,
+		"styledUnderlines": c.styledUnderlines, "sixels": c.sixels, "colorThemeUpdates": c.colorThemeUpdates,
+		"reportSizeChars": c.reportSizeChars, "reportSizePixels": c.reportSizePixels, "osc4": c.osc4,
+		"osc10": c.osc10, "osc11": c.osc11, "osc176": c.osc176, "inBandResize": c.inBandResize,
+		"explicitWidth": c.explicitWidth,
+	}
+}
